@@ -37,7 +37,10 @@ class C29(Prop):
                   '(base https://<auth host>/) is an http(s) URL whose host is exactly one of the four Hail hosts on the default port '
                   '(accepted_lands_on_hail, no further hypothesis). The validator as it was before commit 46b6e6f3a is kept as validateOld: '
                   'the statement is refuted for it in Lean on javascript://auth.hail.is/%0aalert(1). The model of the Python half is compared '
-                  'with the real validator and the real urlparse on every run.')
+                  'with the real validator and the real urlparse on every run. The flow: in the model of /login, /signup, /oauth2callback and '
+                  '/creating a redirect to the `next` string happens only after that very string passed the validator in the same request '
+                  '(callback_redirects_to_valid_next, creating_redirects_to_valid_next, flow_redirect_lands_on_hail); the real handlers are driven '
+                  'over all (caller, account state, session next incl. planted ones) combinations and every 3xx Location is judged.')
     level_note = ('PARTIAL: browserDest is a hand transcription of the WHATWG URL Standard (scheme/authority/host/port states, ASCII '
                   'fast path of domain-to-ASCII, IPv4 parser) and of the Fetch rule that redirects to non-http(s) schemes are network '
                   'errors; it is cross-checked only against a second transcription (harness/whatwg_url.py), never against a browser. '
@@ -51,7 +54,8 @@ class C29(Prop):
             'distinct by full case')
     trusted = ['harness/whatwg_url.py and Model/NextUrl.browserDest: transcriptions of the WHATWG URL Standard / Fetch redirect rule, not '
                'compared with any browser', 'harness/svcenv.py: env vars and global-config the auth module reads at import',
-               'shim prometheus_async.aio.web, stub googlecloudprofiler']
+               'shim prometheus_async.aio.web, stub googlecloudprofiler',
+               'flow cases: aiohttp_session replaced by a dict-backed session store, render_template / insert_new_user / create_session / the OAuth flow client / the users table replaced by fakes in the namespace of auth.auth']
     assumptions = ['deploy config domain is a plain lower-case DNS name (letters, digits, -, .), not IPv4-like, no xn-- label; base path '
                    'empty or starting with /', 'the browser follows the redirect as the WHATWG URL / Fetch standards prescribe',
                    'the Location header carries the accepted string (aiohttp/yarl re-quoting observed, not modelled)']
@@ -68,6 +72,8 @@ class C29(Prop):
         self.auth = a
         self.web = web
         self.DeployConfig = DeployConfig
+        self._flow_cache = {}
+        self.mk = __import__('aiohttp.test_utils', fromlist=['make_mocked_request']).make_mocked_request
 
     def _cfg(self, c):
         return self.DeployConfig('external', 'default', c['domain'], c['base_path'])
@@ -105,7 +111,7 @@ class C29(Prop):
             return 'failure'
         return f'unmodelled:{enc(d[1])}'
 
-    def impl(self, c):
+    def _url_impl(self, c):
         url = c['url']
         n = self._real_netloc(url)
         py = 'exotic' if n is None else 'ok:' + enc(n)
@@ -120,7 +126,7 @@ class C29(Prop):
         dest = whatwg_url.destination(url, self.base_host(c))
         return [f'py={py} verdict={verdict} dest={self.show_dest(dest)}']
 
-    def model_lines(self, c):
+    def _url_model_lines(self, c):
         return [f"{enc(c['domain'])} {'N' if c['base_path'] is None else enc(c['base_path'])} {enc(c['url'])}"]
 
     # ---- the property on the real behaviour ------------------------------------------------------------------------------------
@@ -149,7 +155,7 @@ class C29(Prop):
                 return False
         return True
 
-    def oracle(self, c, out):
+    def _url_oracle(self, c, out):
         if out[0].startswith('IMPL-EXC'):
             return out[0]
         if not self.plain_cfg(c) or not self._real_accepts(c):
@@ -166,12 +172,209 @@ class C29(Prop):
             return self._judge(c, loc, f'(Location header {loc!r})')
         return None
 
+    # ==== the flow: /login, /signup, /oauth2callback, /creating =========================================================================
+    IDP = 'https://accounts.idp.example/o/oauth2/auth?state=xyz'
+    NEXTS = ['https://batch.{d}/batches/3', 'https://ci.{d}/', 'http://monitoring.{d}/x?y=1', 'https://evil.com/', 'https://evil.com/?//auth.{d}',
+             '//evil.com/x', 'javascript://auth.{d}/%0aalert(1)', 'https://auth.{d}@evil.com/', 'https://auth.{d}%2F@evil.com/',
+             'https://auth.{d}.evil.com/', 'https:/\\evil.com', '/user', '', 'https://notebook.{d}/', 'data://ci.{d}/,x', 'https://AUTH.{d}/']
+
+    def _flow_setup(self):
+        if getattr(self, '_flow_ready', False):
+            return
+        import asyncio
+        import types
+        a, web = self.auth, self.web
+        self.flow_loop = asyncio.new_event_loop()
+        self.session_store = {}
+
+        class Session(dict):
+            pass
+        fake = types.ModuleType('aiohttp_session')
+
+        async def get_session(request):
+            return self.session_store.setdefault('s', Session())
+
+        async def new_session(request):
+            self.session_store['s'] = Session()
+            return self.session_store['s']
+        fake.get_session, fake.new_session = get_session, new_session
+        a.aiohttp_session = fake
+
+        async def render_template(service, request, userdata, file, page_context, status_code=200, **k):
+            self.flow_env['rendered'] = file
+            return web.Response(status=status_code, text=file)
+        a.render_template = render_template
+
+        async def insert_new_user(db, username, login_id, **k):
+            if not self.flow_env['signup_ok']:
+                raise a.DuplicateUsername('erin', 'erin@org.example')
+            self.flow_env['inserted'] = (username, login_id)
+            return True
+
+        async def create_session(db, user_id, *args, **k):
+            return 'session-' + str(user_id)
+        a.insert_new_user, a.create_session = insert_new_user, create_session
+
+        async def no_user(request):
+            return None
+        a.auth._fetch_userdata = no_user
+        prop = self
+
+        class DB:
+            async def select_and_fetchall(self_, sql, args=None):
+                st = prop.flow_env['account']
+                if st != 'none':
+                    yield {'id': 7, 'username': 'erin', 'login_id': 'erin@org.example', 'state': st, 'is_developer': 0}
+
+        class FlowClient:
+            def initiate_flow(self_, redirect_uri):
+                return {'authorization_url': prop.IDP, 'state': 'xyz'}
+
+            def receive_callback(self_, request, flow_dict):
+                return types.SimpleNamespace(login_id='erin@org.example', unverified_email='erin@org.example', organization_id='org.example', token={})
+
+            def organization_id(self_):
+                return 'org.example'
+        app = web.Application()
+        app[a.AppKeys.DB] = DB()
+        app[a.AppKeys.FLOW_CLIENT] = FlowClient()
+        self.flow_app = app
+        self.flow_routes = {(r.method, r.path): r.handler for r in a.routes if hasattr(r, 'method')}
+        self._flow_ready = True
+
+    def _flow_run(self, c):
+        """one step of the flow on the REAL handler; returns (status, Location or None)"""
+        k = json.dumps(c, sort_keys=True)
+        if k in self._flow_cache:
+            return self._flow_cache[k]
+        self._flow_setup()
+        from urllib.parse import quote
+        a, web = self.auth, self.web
+        a.deploy_config = self._cfg(c)
+        self.flow_env = {'account': c.get('account', 'none'), 'signup_ok': bool(c.get('signup_ok', True)), 'inserted': None}
+        step, nxt = c['step'], c['next']
+        sess = self.session_store.setdefault('s', {})
+        sess.clear()
+        if step in ('login', 'signup'):
+            path = '/' + step + ('' if nxt is None else '?next=' + quote(nxt, safe=''))
+            key = ('GET', '/' + step)
+        elif step == 'callback':
+            if c.get('has_flow', True):
+                sess.update({'flow': {'state': 'xyz'}, 'caller': c['caller']})
+            else:
+                sess.update({'caller': c['caller']})
+            if nxt is not None:
+                sess['next'] = nxt          # however it got there: through /login, an old session, another code path
+            path, key = '/oauth2callback?code=abc', ('GET', '/oauth2callback')
+        else:
+            if c.get('pending', True):
+                sess.update({'pending': True, 'login_id': 'erin@org.example'})
+            if nxt is not None:
+                sess['next'] = nxt
+            path, key = '/creating', ('GET', '/creating')
+        req = self.mk('GET', path, app=self.flow_app)
+        try:
+            resp = self.flow_loop.run_until_complete(self.flow_routes[key](req))
+            res = (resp.status if not self.flow_env.get('rendered') else 200, resp.headers.get('Location'))
+        except web.HTTPException as e:
+            res = (e.status, e.headers.get('Location'))
+        except AssertionError:
+            res = (500, None)
+        except ValueError:
+            res = (400, None)        # urlparse's own refusal (bracket / NFKC checks): the request is refused
+        self._flow_cache[k] = res
+        return res
+
+    def _flow_impl(self, c):
+        status, loc = self._flow_run(c)
+        cfg = self._cfg(c)
+        if 300 <= status < 400:
+            nxt = c['next'] if c['next'] is not None else cfg.external_url('auth', '/user')
+            # aiohttp re-serialises the Location through yarl: compare the browser destinations, not the strings
+            def same(u):
+                try:
+                    return loc == u or loc == str(self.web.HTTPFound(u).headers['Location'])
+                except Exception:
+                    return False
+            if loc == self.IDP:
+                return ['redirect:idp']
+            if same(cfg.external_url('auth', '/creating')):
+                return ['redirect:creating']
+            if same(cfg.external_url('auth', '')):
+                return ['redirect:home']
+            if same(nxt):
+                return ['redirect:next']
+            return ['redirect:other:' + enc(loc or '')]
+        if status in (400, 401, 500):
+            return [str(status)]
+        return ['page']
+
+    def _flow_model_lines(self, c):
+        head = f"flow {enc(c['domain'])} {'N' if c['base_path'] is None else enc(c['base_path'])} {'N' if c['next'] is None else enc(c['next'])}"
+        if c['step'] in ('login', 'signup'):
+            return [head + ' entry']
+        if c['step'] == 'callback':
+            return [head + f" cb {1 if c.get('has_flow', True) else 0} {c['caller']} {c['account']} {1 if c.get('signup_ok', True) else 0}"]
+        return [head + f" cr {1 if c.get('pending', True) else 0} {c['account']}"]
+
+    def _flow_oracle(self, c, out):
+        """every 3xx the service emits in the flow must send the browser to a Hail host (the hop to the identity provider excepted)"""
+        status, loc = self._flow_run(c)
+        if not (300 <= status < 400) or loc == self.IDP:
+            return None
+        if loc is None:
+            return f'flow {c["step"]}: {status} without Location'
+        d = whatwg_url.destination(loc, self.base_host(c))
+        hosts = self.hail_hosts(c)
+        if d[0] == 'host' and d[2] in hosts:
+            return None
+        return (f'flow-foreign-redirect: /{"oauth2callback" if c["step"] == "callback" else c["step"]} (session caller {c.get("caller")!r}, account '
+                f'{c.get("account")!r}, next {c["next"]!r}) answered {status} Location {loc!r}: the browser ends at {d}, not on one of {hosts}')
+
+    def _flow_cases(self, rng):
+        cfgs = [('hail.is', None), ('hail.is', None), ('internal.hail.is', '/ns1')]
+        for domain, bp in cfgs:
+            nexts = [None] + [t.format(d=domain) for t in self.NEXTS] + [self.gen_url(rng, domain, bp) for _ in range(6)]
+            cfg = self.DeployConfig('external', 'default', domain, bp)
+            fixed = {cfg.external_url('auth', ''), cfg.external_url('auth', '/creating'), cfg.external_url('auth', '') + '/'}
+            for nxt in nexts:
+                if nxt in fixed:
+                    continue      # the redirect could not be told apart from the handler's own fixed targets
+                base = {'kind': 'flow', 'domain': domain, 'base_path': bp, 'next': nxt}
+                yield {**base, 'step': 'login'}
+                yield {**base, 'step': 'signup'}
+                for caller in ('login', 'signup'):
+                    for account in ('none', 'creating', 'active', 'inactive', 'deleting', 'deleted'):
+                        yield {**base, 'step': 'callback', 'caller': caller, 'account': account}
+                    yield {**base, 'step': 'callback', 'caller': caller, 'account': 'none', 'signup_ok': False}
+                    yield {**base, 'step': 'callback', 'caller': caller, 'account': 'active', 'has_flow': False}
+                for account in ('none', 'creating', 'active', 'inactive', 'deleting', 'deleted'):
+                    yield {**base, 'step': 'creating', 'account': account}
+                yield {**base, 'step': 'creating', 'account': 'active', 'pending': False}
+
+    # ---- dispatch on the kind of case ---------------------------------------------------------------------------------------------
+    def impl(self, c):
+        return self._flow_impl(c) if c.get('kind') == 'flow' else self._url_impl(c)
+
+    def model_lines(self, c):
+        return self._flow_model_lines(c) if c.get('kind') == 'flow' else self._url_model_lines(c)
+
+    def oracle(self, c, out):
+        if out and out[0].startswith('IMPL-EXC'):
+            return out[0]
+        return self._flow_oracle(c, out) if c.get('kind') == 'flow' else self._url_oracle(c, out)
+
+    def classify(self, c, out):
+        if c.get('kind') == 'flow':
+            return (json.dumps(c, sort_keys=True) if out[0].startswith('redirect') else None, [f"flow:{c['step']}:{out[0].split(':e')[0][:20]}"])
+        return self._url_classify(c, out)
+
     def finding_key(self, c, msg):
         if msg.startswith('non-http-scheme-accepted'):
             return KEY_SCHEME
         return msg.split(':', 1)[0] + ' ' + json.dumps(c, sort_keys=True)
 
-    def classify(self, c, out):
+    def _url_classify(self, c, out):
         line = out[0]
         tags = []
         if line.startswith('py='):
@@ -273,12 +476,15 @@ class C29(Prop):
         return u
 
     def cases(self, rng, n, tier):
+        yield from self._flow_cases(rng)
         for _ in range(n):
             domain, bp = rng.choice(self.CONFIGS)
             yield {'domain': domain, 'base_path': bp, 'url': self.gen_url(rng, domain, bp)}
 
     def shrink(self, c, fails):
         """delete characters of the URL while the SAME kind of failure (foreign host / non-http scheme / …) remains"""
+        if c.get('kind') == 'flow':
+            return c
         cur = dict(c)
         m0 = self.oracle(cur, self.impl(cur))
         if not m0 or not fails(cur):
